@@ -30,21 +30,25 @@ def selected (ctx : List Shard) (s : Shard) (q : Q) : List Nat :=
 
 /-! the input class on which the full statement is false on the unchanged tree (DESIGN §8): a `Branch` atom with
     an empty pattern is folded to TRUE, but evaluates to "the document is on a branch whose name contains/equals
-    the empty string" -/
+    the empty string".  `wf nb nt q`: with `nb = true` no `Branch` atom with an empty pattern anywhere the rewrites reach; with
+    `nt = true` no `type:repo` node (the shape of every query that reaches a shard: `typeRepoSearcher`
+    has replaced those nodes before). -/
 mutual
-def hasEmptyBranch : Q → Bool
-  | .and cs => hasEmptyBranchL cs
-  | .or cs => hasEmptyBranchL cs
-  | .not c => hasEmptyBranch c
-  | .type _ c => hasEmptyBranch c
-  | .boost _ c => hasEmptyBranch c
-  | .caseScope c => hasEmptyBranch c
-  | .branch pat _ => pat.isEmpty
-  | _ => false
-def hasEmptyBranchL : List Q → Bool
-  | [] => false
-  | c :: cs => hasEmptyBranch c || hasEmptyBranchL cs
+def wf (nb nt : Bool) : Q → Bool
+  | .and cs => wfL nb nt cs
+  | .or cs => wfL nb nt cs
+  | .not c => wf nb nt c
+  | .type t c => (!nt || t != 2) && wf nb nt c
+  | .boost _ c => wf nb nt c
+  | .caseScope c => wf nb nt c
+  | .branch pat _ => !nb || !pat.isEmpty
+  | _ => true
+def wfL (nb nt : Bool) : List Q → Bool
+  | [] => true
+  | c :: cs => wf nb nt c && wfL nb nt cs
 end
+
+def hasEmptyBranch (q : Q) : Bool := !wf true false q
 
 /-- read `Branch ""` as TRUE (the reading under which folding it is harmless) -/
 def emptyBranchAsTrue : Q → Q
